@@ -519,7 +519,13 @@ def kmedoids_job(N, k, entry='pam', sweeps=1, warm=None, proposals=False, tri=Fa
                 kwa = dict(n_iters=sweeps)
                 if warm in ('centers', 'all'):
                     kwa['cluster_center_inds'] = args[0]
-                if warm in ('labels', 'all'):
+                if warm == 'all-pairs':
+                    # the (trajectory, frame) form of the center indices, with the trajectory lengths
+                    Ls = [1, N - 1] if N >= 2 else [N]
+                    flat = [core.concretize_int(c) for c in args[0]]
+                    kwa['cluster_center_inds'] = [(0, f) if f < Ls[0] else (1, f - Ls[0]) for f in flat]
+                    kwa['X_lengths'] = list(Ls)
+                if warm in ('labels', 'all', 'all-pairs'):
                     kwa['assignments'] = args[1]
                     kwa['distances'] = args[2]
                 if not warm:
@@ -591,7 +597,11 @@ def kmedoids_job(N, k, entry='pam', sweeps=1, warm=None, proposals=False, tri=Fa
                         kwa = dict(n_iters=sweeps)
                         if warm in ('centers', 'all'):
                             kwa['cluster_center_inds'] = list(cpre[0])
-                        if warm in ('labels', 'all'):
+                        if warm == 'all-pairs':
+                            Ls = [1, N - 1] if N >= 2 else [N]
+                            kwa['cluster_center_inds'] = [(0, int(f)) if int(f) < Ls[0] else (1, int(f) - Ls[0]) for f in cpre[0]]
+                            kwa['X_lengths'] = list(Ls)
+                        if warm in ('labels', 'all', 'all-pairs'):
                             kwa['assignments'] = cpre[1]
                             kwa['distances'] = cpre[2]
                         if not warm:
@@ -635,7 +645,7 @@ def kmedoids_job(N, k, entry='pam', sweeps=1, warm=None, proposals=False, tri=Fa
             if 'C09' in props:
                 if len(co['center_indices']) != k and (entry in ('pam', 'kmedoids', 'KMedoids')):
                     bad.append('number-of-clusters-changed')
-                if cpre is not None and entry == 'pam':
+                if cpre is not None and (entry == 'pam' or (entry == 'kmedoids' and warm in ('all', 'all-pairs'))):
                     oldc = sum(float(ev(model, v)) ** 2 for v in pre[2])
                     newc = sum(x * x for x in co['distances'])
                     if newc > oldc * (1 + 1e-12) + 1e-15:
@@ -665,7 +675,11 @@ def kmedoids_job(N, k, entry='pam', sweeps=1, warm=None, proposals=False, tri=Fa
                                 kwa2 = dict(n_iters=sweeps)
                                 if warm in ('centers', 'all'):
                                     kwa2['cluster_center_inds'] = list(snap[0])
-                                if warm in ('labels', 'all'):
+                                if warm == 'all-pairs':
+                                    Ls = [1, N - 1] if N >= 2 else [N]
+                                    kwa2['cluster_center_inds'] = [(0, int(f)) if int(f) < Ls[0] else (1, int(f) - Ls[0]) for f in snap[0]]
+                                    kwa2['X_lengths'] = list(Ls)
+                                if warm in ('labels', 'all', 'all-pairs'):
                                     kwa2['assignments'] = snap[1].copy()
                                     kwa2['distances'] = snap[2].copy()
                                 if not warm:
@@ -696,7 +710,8 @@ def kmedoids_job(N, k, entry='pam', sweeps=1, warm=None, proposals=False, tri=Fa
         if 'C09' in props:
             if entry in ('pam', 'kmedoids', 'KMedoids'):
                 obs.append(('number-of-clusters-kept', len(res.center_indices) == k))
-            if entry == 'pam':
+            if entry == 'pam' or (entry == 'kmedoids' and warm in ('all', 'all-pairs')):
+                # (a sweep from a supplied consistent state: the starting cost is the cost of that state)
                 obs.append(('cost-never-increases', cost_of(cells(res.distances)) <= cost_of(pre[2])))
                 if len(res.center_indices) == k:
                     # the cost the property talks about: frames against the centers their labels point to, not the bookkeeping
